@@ -206,7 +206,8 @@ func rejectRule(w *World, r *Report, rule string, pkgSel func(pkg string) bool) 
 			seen[inst] = true
 			row := -1
 			for i, tr := range table.Rows {
-				if tr.Func == fi.Key && strings.Contains(inst, tr.Atom) {
+				// a row holds for the package it was reviewed in: the test may move into a helper
+				if samePkg(tr.Func, fi.Key) && strings.Contains(inst, tr.Atom) {
 					row = i
 				}
 			}
@@ -238,4 +239,9 @@ func init() {
 			}
 		}
 	}
+}
+
+func samePkg(a, b string) bool {
+	i, j := strings.Index(a, "."), strings.Index(b, ".")
+	return i > 0 && j > 0 && a[:i] == b[:j]
 }
